@@ -826,6 +826,319 @@ def facade_check(root):
 
 
 # =====================================================================================================
+# facade layer: histories over the real lian.util.loader.Loader (all sub-loaders behind Loader.export / Loader.restore)
+# =====================================================================================================
+FACADE_SUBS = [   # (family of c15_items, sub-loader attribute, public save method, public get method or None)
+    ("gir", "_gir_loader", "save_unit_gir", "get_unit_gir"),
+    ("scope_hierarchy", "_scope_hierarchy_loader", "save_unit_scope_hierarchy", "get_unit_scope_hierarchy"),
+    ("cfg", "_cfg_loader", "save_method_cfg", "get_method_cfg"),
+    ("stmt_status", "_stmt_status_p1_loader", "save_stmt_status_p1", "get_stmt_status_p1"),
+    ("s2space", "_symbol_state_space_p1_loader", "save_symbol_state_space_p1", "get_symbol_state_space_p1"),
+    ("callee_parameter_mapping", "_callee_parameter_mapping_p3_loader", "save_parameter_mapping_p3", "get_parameter_mapping_p3"),
+    ("defined_states", "_defined_states_p1_loader", "save_method_defined_states_p1", "get_method_defined_states_p1"),
+    ("class_id_to_members", "_class_id_to_members_loader", "save_class_id_to_members", None),
+    ("symbol_bit_vector", "_symbol_bit_vector_manager_p1_loader", "save_symbol_bit_vector_p1", "get_symbol_bit_vector_p1"),
+]
+FACADE_NK = 3         # ids per sub-loader driven through the facade
+
+
+class FacadeCtx:
+    def __init__(self, root):
+        import c15_items
+        fams = {f.name: f for f in c15_items.families()}
+        self.root = root
+        self.ws = os.path.join(root, "facade_hist_ws")
+        self.subs = []
+        for fam_name, attr, sv, gt in FACADE_SUBS:
+            self.subs.append((FamCtx(fams[fam_name], os.path.join(root, "facade_probe")), attr, sv, gt))
+
+    def fresh_dirs(self):
+        from lian.config import config
+        shutil.rmtree(self.ws, ignore_errors=True)
+        for d in (config.FRONTEND_DIR, config.SEMANTIC_P1_DIR, config.SEMANTIC_P2_DIR, config.SEMANTIC_P3_DIR):
+            os.makedirs(os.path.join(self.ws, d))
+
+    def new_loader(self):
+        from lian.util import loader as L
+        o = type("O", (), {})()
+        o.workspace = self.ws
+        return L.Loader(o)
+
+
+def facade_real(fx, cfg, ops):
+    """One history on the real Loader. Per op: output (as in the loader layer for sub-loader reads)."""
+    from lian.config import config
+    fx.fresh_dirs()
+    config.MAX_ROWS = cfg["maxRows"]
+    ld = fx.new_loader()
+    out = []
+    for step, op in enumerate(ops):
+        buf = io.StringIO()
+        canon = None
+        with contextlib.redirect_stdout(buf), contextlib.redirect_stderr(buf):
+            try:
+                kind = op[0]
+                if kind in ("save", "get", "remove"):
+                    fc, attr, sv, gt = fx.subs[op[1]]
+                    fam = fc.fam
+                    key = fam.spell(op[2], step)
+                if kind == "save":
+                    getattr(ld, sv)(key, fam.build(op[3], fam.keys[op[2]])); o = None
+                elif kind == "get":
+                    sub = getattr(ld, attr)
+                    rec = {}
+                    orig = sub.get_raw_item_by_id
+                    def spy(_id, orig=orig, rec=rec):
+                        rec["raw"] = orig(_id)
+                        return rec["raw"]
+                    sub.get_raw_item_by_id = spy
+                    try:
+                        x = getattr(ld, gt)(key) if gt else sub.get_item_by_id(key)
+                    finally:
+                        del sub.get_raw_item_by_id
+                    o, canon = _got(fc, op[2], x, rec.get("raw", x))
+                elif kind == "remove":
+                    getattr(ld, attr).remove_unit_id(key); o = "ok"
+                elif kind == "msave":
+                    ld.save_unit_id_to_method_ids(op[1], list(op[2])); o = None
+                elif kind == "o2m":
+                    o = [int(x) for x in ld.convert_unit_id_to_method_ids(op[1])]
+                elif kind == "m2o":
+                    o = int(ld.convert_method_id_to_unit_id(op[1]))
+                elif kind == "export":
+                    ld.export(); o = None
+                elif kind == "restore":
+                    ld = fx.new_loader(); ld.restore(); o = None
+                else:
+                    raise ValueError(kind)
+            except SystemExit:
+                o = ["quit"] if op[0] == "get" else "quit"
+            except Exception as e:
+                name = type(e).__name__
+                if op[0] == "get":
+                    o = ["loaderror"] if name in LOAD_ERRORS else ["exception", name, str(e)[:120]]
+                else:
+                    o = "exception:" + name + ":" + str(e)[:120]
+        printed = [l for l in buf.getvalue().split("\n") if l.strip()]
+        out.append([o, canon, printed[:3]])
+    return out
+
+
+def facade_oracle(fx, cfg, ops, real):
+    """Independent statement of C15 at the facade: per sub-loader a dict id -> pool item (latest save wins); Loader.export()
+    makes the current content durable; a fresh Loader().restore() returns what was durable at the last export."""
+    spec = [dict() for _ in fx.subs]
+    durable = [dict() for _ in fx.subs]
+    lost_ok = [set() for _ in fx.subs]        # ids removed from an exported bundle since the last export: file already rewritten
+    hollow = [set() for _ in fx.subs]         # … and then reopened without an export in between: the old index still names them;
+                                              # their rows are gone if the removal hit the bundle file, still there if it only hit
+                                              # the active bundle (which of the two depends on auto-exports: the Lean model decides
+                                              # that exactly, the oracle accepts both)
+    fwd, fwd_durable, map_exported = {}, {}, False
+    problems = []
+    restored = False
+    for i, (op, (o, canon, printed)) in enumerate(zip(ops, real)):
+        kind = op[0]
+        if isinstance(o, str) and (o.startswith("exception") or o == "quit"):
+            problems.append((i, f"{kind} -> {o}"))
+        if printed and kind in ("export", "restore", "save"):
+            problems.append((i, f"{kind}: console report {printed[0][:160]!r}"))
+        if kind == "save":
+            spec[op[1]][op[2]] = op[3]
+            lost_ok[op[1]].discard(op[2])
+            hollow[op[1]].discard(op[2])
+        elif kind == "remove":
+            if op[2] in durable[op[1]] and op[2] in spec[op[1]]:
+                lost_ok[op[1]].add(op[2])
+            spec[op[1]].pop(op[2], None)
+        elif kind == "msave":
+            fwd[op[1]] = list(op[2])
+        elif kind == "export":
+            durable = [dict(d) for d in spec]
+            lost_ok = [set() for _ in fx.subs]
+            if fwd:
+                fwd_durable = {a: list(b) for a, b in fwd.items()}; map_exported = True
+        elif kind == "restore":
+            for si_, ids in enumerate(lost_ok):
+                for k_ in ids:
+                    hollow[si_].add(k_)
+            lost_ok = [set() for _ in fx.subs]
+            spec = [dict(d) for d in durable]
+            fwd = {a: list(b) for a, b in fwd_durable.items()} if map_exported else {}
+            restored = True
+        elif kind == "o2m":
+            if o != fwd.get(op[1], []):
+                problems.append((i, f"unit->methods({op[1]}) -> {o}, expected {fwd.get(op[1], [])}"))
+        elif kind == "m2o":
+            owners = [a for a, bs in fwd.items() if op[1] in bs]
+            if o != -1 and o not in owners:
+                problems.append((i, f"method->unit({op[1]}) -> {o}, whose current list does not contain it"))
+        elif kind == "get":
+            fc = fx.subs[op[1]][0]
+            k = op[2]
+            name = fc.fam.name
+            if k not in spec[op[1]]:
+                ok = o == ["none"] or (restored and o == ["notfound"] and k in hollow[op[1]])
+                if not ok:
+                    problems.append((i, f"{name}: get({k}) of an id without content -> {o}"))
+            else:
+                j = spec[op[1]][k]
+                if restored and k in hollow[op[1]] and o in (["none"], ["notfound"]):
+                    continue
+                if fc.nrows[(k, j)] == 0:
+                    ok = o in (["notfound"], ["none"]) or (o[0] == "item" and canon == fc.canon[(k, j)])
+                    if not ok:
+                        problems.append((i, f"{name}: get({k}) of an empty item -> {o}"))
+                elif o[0] != "item" or canon != fc.canon[(k, j)]:
+                    problems.append((i, f"{name}: get({k}) -> {o} but the {'durable' if restored else 'latest'} content is pool item {j}"))
+    return problems
+
+
+def facade_project(ops, si):
+    """the history sub-loader `si` sees: (model ops in harness format, index of the originating facade op or None)"""
+    mops, origin = [], []
+    for i, op in enumerate(ops):
+        if op[0] in ("save", "get", "remove"):
+            if op[1] != si:
+                continue
+            mops.append(["save", op[2], op[3]] if op[0] == "save" else [op[0], op[2]]); origin.append(i)
+        elif op[0] == "export":
+            mops += [["export"], ["export_indexing"]]; origin += [None, None]
+        elif op[0] == "restore":
+            mops.append(["restore"]); origin.append(None)
+    return mops, origin
+
+
+def facade_model_requests(fx, cfg, ops, caps):
+    """project the facade history onto each driven GeneralLoader sub-loader and ask the Lean `loader` model"""
+    reqs = []
+    for si, (fc, attr, sv, gt) in enumerate(fx.subs):
+        mops, _ = facade_project(ops, si)
+        r = model_requests(fc, {"maxRows": cfg["maxRows"], "itemCap": caps[si][0], "bundleCap": caps[si][1]}, mops)
+        r["states"] = False
+        reqs.append(r)
+    return reqs
+
+
+def facade_model_outputs(fx, ops, replies):
+    """the model's outputs for the reads and removals, in the order of the facade history"""
+    res = [None] * len(ops)
+    for si, rep_ in enumerate(replies):
+        _, origin = facade_project(ops, si)
+        for (o, _), i in zip(rep_, origin):
+            if i is not None and ops[i][0] in ("get", "remove"):
+                res[i] = o
+    return res
+
+
+def facade_directed(fx):
+    hs = []
+    big = {"maxRows": 1000}
+    for si in range(len(fx.subs)):
+        # durable content, then an EMPTY re-save (no new bundle), export again, reopen: the old content must not come back
+        hs.append((big, [["save", si, 0, 1], ["save", si, 1, 2], ["export"], ["save", si, 0, 0], ["get", si, 0], ["export"],
+                         ["restore"], ["get", si, 0], ["get", si, 1]]))
+        # re-save with other content between two exports
+        hs.append((big, [["save", si, 0, 1], ["export"], ["save", si, 0, 2], ["save", si, 2, 3], ["export"], ["restore"],
+                         ["get", si, 0], ["get", si, 2], ["get", si, 1]]))
+        # saved after the last export: legitimately gone after reopening
+        hs.append(({"maxRows": 2}, [["save", si, 0, 1], ["export"], ["save", si, 1, 4], ["get", si, 1], ["restore"], ["get", si, 1], ["get", si, 0]]))
+    for si in (0, 1):       # removal of an exported unit between exports
+        hs.append((big, [["save", si, 0, 1], ["save", si, 1, 2], ["export"], ["remove", si, 0], ["get", si, 0], ["export"], ["restore"],
+                         ["get", si, 0], ["get", si, 1]]))
+        hs.append((big, [["save", si, 0, 1], ["export"], ["remove", si, 0], ["restore"], ["get", si, 0]]))
+    hs.append((big, [["msave", 1, [10, 11]], ["export"], ["msave", 1, []], ["export"], ["restore"], ["o2m", 1], ["m2o", 10]]))
+    return hs
+
+
+def facade_random(fx, rng):
+    ns = len(fx.subs)
+    # a history concentrates on two or three sub-loaders so that re-saves of the same id are frequent
+    focus = rng.sample(range(ns), rng.choice([1, 2, 3]))
+    h = []
+    for _ in range(rng.randint(6, 18)):
+        r = rng.random()
+        si = rng.choice(focus)
+        k = rng.randrange(FACADE_NK) if rng.random() < 0.6 else 0
+        saved = any(o[0] == "save" and o[1] == si and o[2] == k for o in h)
+        if r < 0.36:
+            j = 0 if (saved and rng.random() < 0.4) else rng.randrange(fx.subs[si][0].fam.npool)
+            h.append(["save", si, k, j])
+        elif r < 0.64: h.append(["get", si, k])
+        elif r < 0.80: h.append(["export"])
+        elif r < 0.88: h.append(["restore"])
+        elif r < 0.91 and si in (0, 1): h.append(["remove", si, k])
+        elif r < 0.95: h.append(["msave", rng.randint(1, 2), rng.sample([10, 11, 12], rng.randint(0, 2))])
+        elif r < 0.975: h.append(["o2m", rng.randint(1, 2)])
+        else: h.append(["m2o", rng.choice([10, 11, 12])])
+    h += [["export"], ["restore"]] + [["get", si, k] for si in focus for k in range(FACADE_NK)]
+    return {"maxRows": rng.choice([1000, 1000, 3])}, h
+
+
+def facade_job(args):
+    tier, seed, root, part, n_random = args
+    try:
+        common.use_repo()
+        root = os.path.join(root, f"facade{part}")
+        os.makedirs(root, exist_ok=True)
+        fx = FacadeCtx(root)
+        rng = random.Random(f"{seed}:facade:{part}")
+        cases = facade_directed(fx) if part == 0 else []
+        n_dir = len(cases)
+        for _ in range(n_random):
+            cases.append(facade_random(fx, rng))
+        t0 = time.time()
+        fx.fresh_dirs()
+        probe = fx.new_loader()
+        caps = [(getattr(probe, attr).item_cache.capacity, getattr(probe, attr).bundle_cache.capacity) for _, attr, _, _ in fx.subs]
+        reqs = []
+        for cfg, ops in cases:
+            reqs += facade_model_requests(fx, cfg, ops, caps)
+        replies = drv_ok(drv_batch(reqs))
+        ns = len(fx.subs)
+        failing, breaks = [], []
+        stats = {"export": 0, "restore": 0, "empty_resave_of_durable_item": 0, "remove": 0, "reads_after_restore": 0}
+        nontriv = set()
+        for ci, (cfg, ops) in enumerate(cases):
+            real = facade_real(fx, cfg, ops)
+            probs = facade_oracle(fx, cfg, ops, real)
+            mouts = facade_model_outputs(fx, ops, replies[ci * ns:(ci + 1) * ns])
+            exported, durable_ids, restored, nt = False, set(), False, False
+            cur = set()
+            for op in ops:
+                if op[0] == "export":
+                    stats["export"] += 1; durable_ids = set(cur)
+                elif op[0] == "restore":
+                    stats["restore"] += 1; restored = True
+                elif op[0] == "remove": stats["remove"] += 1
+                elif op[0] == "save":
+                    cur.add((op[1], op[2]))
+                    if (op[1], op[2]) in durable_ids and op[3] == 0:
+                        stats["empty_resave_of_durable_item"] += 1; nt = True
+                elif op[0] == "get" and restored:
+                    stats["reads_after_restore"] += 1; nt = True
+            if nt:
+                nontriv.add(json.dumps([cfg, ops]))
+            if probs:
+                failing.append({"kind": "facade-history", "cfg": cfg, "ops": ops, "problems": [list(p) for p in probs[:4]]} if len(failing) < 3 else None)
+            diff = [(i, r[0], m) for i, (op, r, m) in enumerate(zip(ops, real, mouts)) if op[0] in ("get", "remove") and r[0] != m]
+            if diff:
+                breaks.append({"kind": "facade-history", "cfg": cfg, "ops": ops, "first_diff_op": diff[0][0], "real": diff[0][1], "model": diff[0][2]} if len(breaks) < 3 else None)
+        return {"evaluations": len(cases), "directed": n_dir, "distinct_nontrivial": len(nontriv), "stats": stats,
+                "failing": [f for f in failing if f], "n_failing": len(failing), "breaks": [b for b in breaks if b], "n_breaks": len(breaks),
+                "wall_s": round(time.time() - t0, 1), "sub_loaders": [a for _, a, _, _ in fx.subs] + ["_unit_id_to_method_id_loader"]}
+    except BaseException:
+        return {"error": traceback.format_exc()}
+
+
+def facade_case_problems(case, root):
+    common.use_repo()
+    fx = FacadeCtx(os.path.join(root, "facade_replay"))
+    real = facade_real(fx, case["cfg"], case["ops"])
+    return facade_oracle(fx, case["cfg"], case["ops"], real), real
+
+
+# =====================================================================================================
 # roundtrip layer: items of a real analysis
 # =====================================================================================================
 HARVEST_SRC = {
@@ -1068,12 +1381,15 @@ def _run(ctx, proofs_ok, root):
     with mpctx.Pool(min(16, len(jobs) + 2)) as pool:
         harvest_async = [pool.apply_async(harvest_job, ((os.path.join(root, "h1"), False),)),
                          pool.apply_async(harvest_job, ((os.path.join(root, "h2"), True),))]
+        fplan = [(0, 45), (1, 80), (2, 80)] if tier == "quick" else [(i, 700) for i in range(6)]
+        facade_async = [pool.apply_async(facade_job, ((tier, ctx.seed, root, part, n),)) for part, n in fplan]
         fam_async = pool.map_async(family_job, jobs, chunksize=1)
         lru = lru_layer(ctx, corpus)
         maps = map_layer(ctx, corpus, root)
         n_sub, facade_missing = facade_check(root)
         fam_results = fam_async.get()
         harvests = [h.get() for h in harvest_async]
+        facades = [f.get() for f in facade_async]
 
     for r in fam_results:
         if "error" in r:
@@ -1083,6 +1399,9 @@ def _run(ctx, proofs_ok, root):
     for hv in harvests:
         if "error" in hv:
             raise RuntimeError("harvest job failed:\n" + hv["error"])
+    for fr in facades:
+        if "error" in fr:
+            raise RuntimeError("facade job failed:\n" + fr["error"])
     frozen_bad = [r["family"] for r in fam_results if r["frozen_witnesses"] != r["frozen_witnesses_discriminating"]]
     if maps["frozen_witnesses"] != maps["frozen_witnesses_discriminating"]:
         frozen_bad.append("maploader")
@@ -1090,8 +1409,9 @@ def _run(ctx, proofs_ok, root):
     # ---------------------------------------------------------------- evidence
     cov = ctx.cov
     cov["evaluations"] = lru["evaluations"] + maps["evaluations"] + sum(r["evaluations"] for r in fam_results) + \
-        sum(h["captured"] for h in harvests) + 1
-    cov["distinct_nontrivial"] = lru["distinct_nontrivial"] + maps["distinct_nontrivial"] + sum(r["distinct_nontrivial"] for r in fam_results)
+        sum(h["captured"] for h in harvests) + 1 + sum(f["evaluations"] for f in facades)
+    cov["distinct_nontrivial"] = lru["distinct_nontrivial"] + maps["distinct_nontrivial"] + sum(r["distinct_nontrivial"] for r in fam_results) + \
+        sum(f["distinct_nontrivial"] for f in facades)
     cov["exhaustive"] = True
     cov["rule"] = (
         "corpus first; lru: all histories of length<=%d over 15 ops x capacities 0..3 + random length 5-40; loader: per family "
@@ -1118,6 +1438,21 @@ def _run(ctx, proofs_ok, root):
                                   for f in fams if f.name in ("gir", "callee_parameter_mapping")}
     cov["loader_groups"] = sorted(set(f.group for f in fams))
     cov["facade"] = {"sub_loaders_with_export": n_sub, "not_reached_by_Loader.export": facade_missing}
+    fstats = {}
+    for f in facades:
+        for k, v in f["stats"].items():
+            fstats[k] = fstats.get(k, 0) + v
+    cov["facade_histories"] = {"evaluations": sum(f["evaluations"] for f in facades), "directed": sum(f["directed"] for f in facades),
+                               "distinct_nontrivial": sum(f["distinct_nontrivial"] for f in facades), "stats": fstats,
+                               "sub_loaders_driven": facades[0]["sub_loaders"], "n_failing": sum(f["n_failing"] for f in facades),
+                               "model_differences": sum(f["n_breaks"] for f in facades), "wall_s": [f["wall_s"] for f in facades],
+                               "rule": "histories over the real lian.util.loader.Loader: saves through its public save_* methods into 9 "
+                                       "GeneralLoader sub-loaders + the unit->method map, reads through the public get_* methods, Loader.export(), "
+                                       "a fresh Loader + restore(), remove_unit_id on the unit-level sub-loaders; directed (empty re-save / re-save / "
+                                       "removal between two exports, then reopen) + random; oracle: per sub-loader dict, durable = content at the "
+                                       "last Loader.export(); the reads are also compared with the Lean loader model run on each sub-loader's "
+                                       "projection of the history (export -> export; export_indexing, restore -> restore). non-trivial = a read "
+                                       "after a restore or an empty re-save of a durable item"}
     cov["roundtrip"] = []
     for label, hv in zip(("default", "--enable-p2"), harvests):
         d = {k: hv[k] for k in ("run_exit", "captured", "per_class", "sfg_p3", "console_reports")}
@@ -1126,6 +1461,7 @@ def _run(ctx, proofs_ok, root):
         cov["roundtrip"].append(d)
     cov["correspondence"] = {"lru_differences": len(lru["breaks"]), "maploader_differences": len(maps["breaks"]),
                              "loader_differences": sum(r["n_breaks"] for r in fam_results),
+                             "facade_differences": sum(f["n_breaks"] for f in facades),
                              "frozen_models_not_discriminating": frozen_bad}
     cov["fingerprints"] = fingerprints()
     sample_ops = [["put", 1, 10], ["put", 2, 20], ["get", 1], ["put", 3, 30], ["get", 2]]
@@ -1162,6 +1498,9 @@ def _run(ctx, proofs_ok, root):
     for r in setup_failed:
         concrete.append({"kind": "loader-setup", "family": r["family"],
                          "what": "building/flattening the pool items of this family raised in the real code", "traceback": r["setup_failed"]})
+    for fr in facades:
+        for f in fr["failing"][:2]:
+            concrete.append(f)
     for f in lru["failing"][:2]:
         concrete.append(f)
     for f in maps["failing"][:2]:
@@ -1203,6 +1542,13 @@ def _run(ctx, proofs_ok, root):
             c["problems"] = [list(p) for p in probs]
             c["real"] = [[o, st] for o, st, _ in real]
             c["what"] = "real loader violates C15: " + "; ".join(p[1] for p in probs if p[2] is None)[:300]
+        elif c.get("kind") == "facade-history":
+            c["ops"] = common.shrink_list(c["ops"], lambda ops: bool(ops) and bool(facade_case_problems(dict(c, ops=ops), root)[0]))
+            probs, real = facade_case_problems(c, root)
+            c["problems"] = [list(p) for p in probs]
+            c["real"] = [r[0] for r in real]
+            c["sub_loaders"] = [a for _, a, _, _ in FACADE_SUBS]
+            c["what"] = "real Loader (facade) violates C15: " + "; ".join(p[1] for p in probs)[:300]
         elif c.get("kind") == "lru":
             c["ops"] = common.shrink_list(c["ops"], lambda ops: bool(ops) and lru_violates(dict(c, ops=ops)))
             c["what"] = "real LRUCache disagrees with the textbook LRU"
@@ -1216,9 +1562,9 @@ def _run(ctx, proofs_ok, root):
         reported += 1
     cov["violating_inputs_found"] = len(concrete)
 
-    n_breaks = len(lru["breaks"]) + len(maps["breaks"]) + sum(r["n_breaks"] for r in fam_results)
+    n_breaks = len(lru["breaks"]) + len(maps["breaks"]) + sum(r["n_breaks"] for r in fam_results) + sum(f["n_breaks"] for f in facades)
     if not concrete and (n_breaks or not proofs_ok or frozen_bad):
-        first = (lru["breaks"] + maps["breaks"] + [b for r in fam_results for b in r["breaks"]] + [None])[0]
+        first = (lru["breaks"] + maps["breaks"] + [b for r in fam_results for b in r["breaks"]] + [b for f in facades for b in f["breaks"]] + [None])[0]
         ctx.violation({"kind": "no-input",
                        "what": "proof obligation or correspondence broken; the oracles found no history violating C15 in this run",
                        "broken_theorems": ctx.audit["failures"], "correspondence_differences": n_breaks,
@@ -1255,6 +1601,10 @@ def replay(rp):
                 print(json.dumps({"setup": "ok"})); return 0
             except BaseException as e:
                 print(json.dumps({"setup": "raised", "error": type(e).__name__})); return 1
+        if kind == "facade-history":
+            probs, real = facade_case_problems(rp, root)
+            print(json.dumps({"problems": [list(p) for p in probs], "real": [r[0] for r in real]}))
+            return 1 if probs else 0
         if kind == "facade":
             n, missing = facade_check(root)
             print(json.dumps({"missing": missing}))
